@@ -107,6 +107,16 @@ structure DS where
   ctxWhy : List String := []    -- per caller: why its ctx ended
   reported : List Bool := []
   mon : Mon := {}
+  prevGA : Nat := 0             -- `t.prevGoAwayID`
+
+/-- `handleGoAway` returns a connection error (and, since `reader` returns on it, the transport closes):
+a non-zero even last-stream-id, or a GOAWAY after the first whose id exceeds the previous one's. -/
+def goAwayConnErr (d : DS) (fs : List String) : Bool :=
+  match fs with
+  | ["goaway", last] => match last.toNat? with
+    | some l => (l > 0 && l % 2 == 0) || (d.s.goAwayClosed && l > d.prevGA)
+    | none => false
+  | _ => false
 
 def kv (fs : List String) (k : String) : Option String :=
   fs.findSome? fun f => if f.startsWith (k ++ "=") then some (f.drop (k.length + 1)).toString else none
@@ -185,7 +195,7 @@ def external1 (d : DS) (fs : List String) : Option (DS × List Rule) :=
         | none => false
       ({ d with now := now, ctxWhy := exp.foldl (fun w c => w.set c "deadline") d.ctxWhy }, exp.map .abandon)
   | ["goaway", last] => last.toNat?.map fun last =>
-      (d, .goAway :: ((s.openS.filter (·.id > last)).map fun st => Rule.closeStream st.id none))
+      ({ d with prevGA := last }, .goAway :: ((s.openS.filter (·.id > last)).map fun st => Rule.closeStream st.id none))
   | _ => none
 
 /-- `burst a:b:c …`: the peer's frames (srvend/srvrst/settings/hls, written back to back: the reader
@@ -341,7 +351,7 @@ def step (d : DS) (fs : List String) (impl : String) : DS × String × String :=
   | _ =>
     if !d.started then (d, "not-started", verdict)
     else if d.terminal then (d, "*", verdict)
-    else if fs == ["close"] then ({ d with terminal := true }, "*", verdict)
+    else if fs == ["close"] || goAwayConnErr d fs then ({ d with terminal := true }, "*", verdict)
     else
       match external d fs with
       | none => (d, "bad-op", verdict)
